@@ -93,6 +93,26 @@ def run(ctx):
         texts.append(h)
         if tx[1] and not (not tx[1] and tx[2]):
             py_expected[h] = tx_line_py(tx)
+    # counts across byte / compact-size boundaries: inputs, inputs carrying a witness, outputs, witness items
+    def counted(n_in, n_wit, n_out, items=1):
+        vin = []
+        for k in range(n_in):
+            w = [bytes([k & 0xff])] * items if k < n_wit else []
+            vin.append((bytes([k & 0xff, k >> 8]) + bytes(30), k, b"", w, 0xffffffff))
+        vout = [(k, b"\x51") for k in range(n_out)]
+        return (2, vin, vout, 0)
+    shapes = [(255, 255, 1), (256, 256, 1), (257, 257, 1), (300, 256, 1), (300, 255, 2), (512, 512, 1), (252, 252, 252), (253, 1, 253), (254, 253, 256),
+              (1, 1, 255), (1, 1, 256), (1, 0, 65536 if not quick else 300)]
+    for (a, b, c) in shapes:
+        tx = counted(a, b, c)
+        h = ser_tx(tx).hex()
+        texts.append(h)
+        py_expected[h] = tx_line_py(tx)
+    for items in (252, 253, 256):
+        tx = counted(2, 1, 1, items)
+        h = ser_tx(tx).hex()
+        texts.append(h)
+        py_expected[h] = tx_line_py(tx)
     # corruptions
     base = docs + [ser_tx(t).hex() for t in gen[:40]]
     for h in base[: (20 if quick else 200)]:
